@@ -1131,6 +1131,39 @@ def workload(ctx):
                     ctx.run("C03.program", (prog, ctx.pick(14, 30)))
     ctx.set_exhaustive("(unary or +,-,* with a plain operand) over (binary operator, kind, kind), "
                        "9 plain kinds")
+    # depth: an operator applied to its own result, 3 .. 8 times (~~~x, -(-(-x)), not not not,
+    # x - (x - (x - ...)), ((x // 2) // 3) // ..., 2 ** (x ** ...)); also inside a larger program
+    for depth in (3, 4, 5, 6, 7, 8):
+        for k in ("x", "sum", "y"):
+            if k not in KINDS:
+                continue
+            towers = []
+            for uop in UN:
+                t = ("leaf", k)
+                for _ in range(depth):
+                    t = ("un", uop, t)
+                towers.append(t)
+            t = ("leaf", k)
+            for i in range(depth):
+                t = ("un", list(UN)[i % len(UN)], t)
+            towers.append(t)
+            t = ("cmp", "lt", ("leaf", k), ("leaf", "1"))
+            for _ in range(depth):
+                t = ("logic", "not_", t, ("leaf", "1"))
+            towers.append(t)
+            for op, side in (("-", "r"), ("-", "l"), ("//", "l"), ("%", "l"), ("/", "r"), ("**", "l"), ("+", "r"),
+                             ("*", "l"), ("^", "r"), ("<<", "l")):
+                t = ("leaf", k)
+                for i in range(depth):
+                    c = ("leaf", ["2", "-3", "1", "2"][i % 4]) if op != "<<" else ("leaf", "1")
+                    t = ("bin", op, t, c) if side == "l" else ("bin", op, ("leaf", "y" if i % 2 else "2"), t)
+                towers.append(t)
+            for t in towers:
+                for prog in (t, ("bin", "+", t, ("leaf", "y")), ("bin", "*", ("leaf", "2"), t)):
+                    if ctx.mine("towers"):
+                        ctx.case(("prog", prog), True, n=0)
+                        ctx.count("operator_towers")
+                        ctx.run("C03.program", (prog, 10))
     for lk in kinds:
         for rk in kinds:
             if (lk in EXPR_KINDS or rk in EXPR_KINDS) and ctx.mine("ordering"):
@@ -1163,6 +1196,7 @@ def workload(ctx):
             ctx.sample("random-program", show(prog))
         ctx.run("C03.program", (prog, ctx.pick(12, 30)))
     ctx.floor("statement_values", 3000)
+    ctx.floor("operator_towers", 500)
     ctx.floor("exhaustive_triples", 12 * 200)
     ctx.floor("registry_histories", 30)
     ctx.floor("kind_evaluations", 10000)
